@@ -184,11 +184,18 @@ def check(ctx):
     seeds_ok = any(is_call(t, "extend") or (t[1][0] == "a" and t[1][2] == "extend"
                                             and t[2] and t[2][0][0] == "comp")
                    for t, _, _ in ra.calls)
+    user_apps = {}
+    for t, _, cond in ra.calls:
+        if t[1][0] == "a" and t[1][2] == "append" and t[2] and t[2][0][0] == "a" \
+                and t[2][0][1] == SELF and t[2][0][2].startswith("log_"):
+            user_apps[t[2][0][2]] = [(a, p_) for a, p_ in cond if a[0] != "inloop"]
     ctx.ob("C15.R2", anv, "the worklist starts from the added nodes, the nodes of the added "
-                          "variables and the user-supplied model nodes", seeds_ok
-           and sum(1 for t, _, _ in ra.calls if t[1][0] == "a" and t[1][2] == "append"
-                   and t[2] and t[2][0][0] == "a" and t[2][0][1] == SELF
-                   and t[2][0][2].startswith("log_")) == 3)
+                          "variables and the user-supplied model nodes (each of the three "
+                          "appended when it is set)", seeds_ok
+           and user_apps == {a_: [(("a", SELF, a_), True)] for a_ in (
+               "log_lik_node", "log_prior_node", "log_prob_node")},
+           detail=str({k: [pretty(a)[:30] for a, _ in v] for k, v in user_apps.items()}),
+           stmt="worklist seeds")
 
     # ------------------------------------------------------------------ R3
     bm = method(repo, gb, "build_model", own=True)
@@ -245,6 +252,15 @@ def check(ctx):
                                                          "_add_model_seed_nodes"],
            detail=str(names_), stmt="naming order " + str(names_))
 
+    mcalls = [t for t, _, _ in rb.calls if is_call(t, f"{MODEL}.Model")]
+    ok_m = (len(mcalls) == 1 and kw(mcalls[0], "grow", 1) == c(False)
+            and kw(mcalls[0], "copy", 2) == n("copy"))
+    ctx.ob("C15.R5", bm, "build_model hands its `copy` argument to Model (copy=True builds "
+                         "from a deep copy, leaving the user's nodes free) and does not "
+                         "grow the already complete graph again", ok_m,
+           detail=short(mcalls[0], 120) if mcalls else "no Model(...) call",
+           stmt="Model call " + (pretty(mcalls[0])[:100] if mcalls else ""))
+
     # ------------------------------------------------------------------ R9
     # build_model works on a private copy of the builder whose node / var lists are new
     # list objects, so the model nodes it adds never reach the user's builder
@@ -298,6 +314,27 @@ def check(ctx):
         ctx.ob("C15.R5", fi, "every node is detached (_unset_model) and the model-owned "
                              "'_model*' nodes are dropped from the result", ok_un and ok_f,
                detail=f"unset={ok_un} filter={ok_f}", stmt=f"{fi.name} detach/filter")
+    for fi in (pop, cp):
+        r = evaluate(repo, fi)
+        rt = r.ret()
+        srcs = []
+        if rt is not None and rt[0] == "tuple" and len(rt[1]) == 2:
+            for comp in rt[1]:
+                # the node dict is filtered (comprehension), the variable dict returned as is
+                srcs.append(comp[3][0][1] if comp[0] == "comp" and len(comp[3]) == 1 else comp)
+        def from_field(t, fld):
+            base = t
+            if base[0] == "call" and base[1][0] == "a" and base[1][2] == "items":
+                base = base[1][1]
+            if fi is pop:
+                return base == ("call", ("a", ("a", SELF, fld), "copy"), (), ())
+            dc = ("call", ("g", "copy.deepcopy"), (("tuple", (("a", SELF, "_nodes"),
+                                                               ("a", SELF, "_vars"))),), ())
+            return base == ("proj", dc, 0 if fld == "_nodes" else 1)
+        ctx.ob("C15.R5", fi, "the first returned dict is built from the model's nodes, the "
+                             "second from its variables", len(srcs) == 2
+               and from_field(srcs[0], "_nodes") and from_field(srcs[1], "_vars"),
+               detail=str([short(x, 60) for x in srcs]), stmt=f"{fi.name} sources")
     rp = evaluate(repo, pop)
     cleared = sorted(t[1][1][2] for t, _, _ in rp.calls if t[1][0] == "a" and t[1][2] == "clear"
                      and t[1][1][0] == "a" and t[1][1][1] == SELF)
